@@ -358,7 +358,7 @@ fn check_decode(rec: &mut Rec, bytes: &[u8; 24]) {
           if !canonical {
             rec.violation(
               "encoding:noncanonical-accepted-in-share",
-              format!("a share whose {} coordinate encodes {} >= p was accepted (decodes to {})", if slot == 0 { "x" } else { "y" }, v, hex(&back[24 * slot..24 * slot + 24])),
+              format!("a share whose {} coordinate encodes {} >= p was accepted (decodes to {})", if slot == 0 { "x" } else { "y" }, v, back.get(24 * slot..24 * slot + 24).map(hex).unwrap_or_else(|| format!("a share of {} bytes: the element was dropped", back.len()))),
               json!({"kind":"share-decode","bytes":hex(bytes),"slot":slot}),
             );
           } else if back != enc {
